@@ -597,3 +597,16 @@ benign("drop_wait_loop_rewritten", ["C09", "C17"], "src/db.rs",
             self.background_work_finished_signal
                 .wait(&mut db_fields_guard);
         }""")
+
+# ---- ROLE-4
+mut("edit_does_not_record_file_number", ["C02", "C01"], "ROLE-4", file="src/versioning/version_set.rs",
+    old="""        change_manifest.curr_file_number = Some(version_set.curr_file_number);
+""", new="""        if change_manifest.curr_file_number.is_none() && !change_manifest.new_files.is_empty() {
+            change_manifest.curr_file_number = Some(version_set.curr_file_number);
+        }
+""", note="edits without new files no longer persist the file-number counter: WAL numbers can be reused after reopen")
+mut("recover_does_not_restore_prev_wal", ["C02"], "ROLE-4", file="src/versioning/version_set.rs",
+    old="""        self.prev_wal_number = maybe_prev_wal_num;
+
+        // Drop the manifest reader""",
+    new="""        // Drop the manifest reader""")
